@@ -238,7 +238,8 @@ GStrVar(u) == Pick({"s1", "s2", "h1", "h2"})
 GChars(u)  == Pick({E, A, B, AB, <<"b", "a">>, <<"a", "b", "a">>, <<"c">>, <<" ">>, <<"1">>, <<"a", " ", "b">>})
 GStrLit(u) == SLit(GChars(u))
 GAnyVar(u) == Pick(LocalNames \cup HdrNames \cup {"g0"})
-GRegex(u)  == Re(Chance(1, 3), Pick({E, A, B, AB, <<"b", "a">>}), Chance(1, 3))
+\* the empty literal is rare on purpose: the regex engine falco uses never reports an empty match (known finding)
+GRegex(u)  == Re(Chance(1, 3), IF Chance(1, 12) THEN E ELSE Pick({A, B, AB, <<"b", "a">>}), Chance(1, 3))
 GBoolVar(u) == Pick({"b1", "b2"})
 CmpOps == {"==", "!=", "<", ">", "<=", ">="}
 
